@@ -67,9 +67,11 @@ def truth_g(x: np.ndarray) -> np.ndarray:
 
 def config_for(mname: str, cons: str, speculative: bool, split: bool) -> EnOptConfig:  # noqa: FBT001
     spec = METHOD_SPECS[mname]
+    # half of the (constraints, split) combinations write the method plug-in qualified: 'scipy/<method>'
+    method = "scipy/" + spec["method"] if (len(cons) + split) % 2 else spec["method"]
     cfg: dict[str, Any] = {
         "variables": {"initial_values": POOL[0].tolist()},
-        "optimizer": {"method": spec["method"], "parallel": spec["parallel"], "speculative": speculative, "split_evaluations": split},
+        "optimizer": {"method": method, "parallel": spec["parallel"], "speculative": speculative, "split_evaluations": split},
     }
     if mname in ("slsqp", "l-bfgs-b", "nelder-mead", "de", "de-vec"):
         cfg["variables"].update({"lower_bounds": [-5.0] * 3, "upper_bounds": [5.0] * 3})
@@ -292,8 +294,8 @@ def stack_config(case: dict[str, Any]) -> dict[str, Any]:
     spec = METHOD_SPECS[case["method"]]
     cfg: dict[str, Any] = {
         "variables": {"initial_values": POOL[0].tolist(), "lower_bounds": [-5.0] * 3, "upper_bounds": [5.0] * 3},
-        "optimizer": {"method": spec["method"], "parallel": spec["parallel"], "speculative": case["speculative"],
-                      "split_evaluations": case["split"]},
+        "optimizer": {"method": ("scipy/" + spec["method"]) if case.get("qualified") else spec["method"], "parallel": spec["parallel"],
+                      "speculative": case["speculative"], "split_evaluations": case["split"]},
         "realizations": {"weights": case["weights"]},
         "gradient": {"number_of_perturbations": 3, "perturbation_magnitudes": 0.01, "boundary_types": 1},
         "samplers": [{"method": "design/fixed"}],
@@ -434,7 +436,7 @@ def hypothesis_shard(item: dict[str, Any]) -> Collector:
         if cons in ("lin", "both") and mask is not None and not mask[0]:
             mask = None
         return {"layer": "B", "method": mname, "cons": cons, "split": draw(st.booleans()), "speculative": draw(st.booleans()),
-                "weights": [draw(st.sampled_from([1.0, 2.0])) for _ in range(r_n)], "mask": mask, "start": draw(st.booleans()),
+                "weights": [draw(st.sampled_from([1.0, 2.0])) for _ in range(r_n)], "mask": mask, "start": draw(st.booleans()), "qualified": draw(st.booleans()),
                 "slopes": [draw(st.sampled_from([-1.0, 0.5, 1.0, 2.0])) for _ in range(r_n * (1 + n_con) * 3)],
                 "offsets": [draw(st.sampled_from([-0.5, 0.0, 1.0])) for _ in range(r_n * (1 + n_con))], "sequence": seq}
 
